@@ -157,6 +157,9 @@ type sim struct {
 	// disk is the simulated storage: one buffer that every save overwrites and
 	// every load reads in place, the way an application reuses its I/O buffer.
 	disk []byte
+	// lastDetached is the model block most recently removed from a body (a
+	// "move" appends that very block somewhere else next)
+	lastDetached *mBlock
 }
 
 // diskWriter writes into the simulated disk from its start.
@@ -528,7 +531,20 @@ func (s *sim) applyBodyOp(op *OpM, tb *hclwrite.Body, mb *mBody) {
 		if len(s.handles) == 0 {
 			return
 		}
-		h := s.handles[op.Handle%len(s.handles)]
+		h := s.handles[((op.Handle%len(s.handles))+len(s.handles))%len(s.handles)]
+		if op.Handle < 0 {
+			// the block removed last
+			ok := false
+			for _, c := range s.handles {
+				if c.m == s.lastDetached {
+					h, ok = c, true
+				}
+			}
+			if !ok {
+				return
+			}
+			s.probe("move_block_just_removed")
+		}
 		if h.m.parent != nil {
 			return
 		}
@@ -586,6 +602,7 @@ func (s *sim) applyBodyOp(op *OpM, tb *hclwrite.Body, mb *mBody) {
 		if !found {
 			s.handles = append(s.handles, handle{tbl[i], target})
 		}
+		s.lastDetached = target
 		s.res.Effective++
 	case "set_type", "set_labels", "hold":
 		mbl := mb.blocks()
